@@ -143,14 +143,22 @@ fn median(mut price_list: Vec<Price>) -> Option<Price> {
     let sum = half_high
         .checked_add(half_low)
         .expect("can't fail as both operands are <= MAX/2");
-    // If `higher_price` and `lower_price` are both odd, we rounded down twice when halving them,
-    // so add 1 to the sum.
-    let median = if higher_price.get() % 2 == 1 && lower_price.get() % 2 == 1 {
-        sum.checked_add(Price::new(1))
-            .expect("can't fail as we rounded down twice while halving the prices")
-    } else {
-        sum
+    // Halving truncates towards zero, dropping a remainder of 1 or -1 for each odd price. If both
+    // remainders have the same sign we lost a whole unit, so add it back (1 for two positive odd
+    // prices, -1 for two negative odd prices); remainders of opposite sign cancel out.
+    let remainder = |price: &Price| {
+        price
+            .get()
+            .checked_rem(2)
+            .expect("can't fail as divisor is not zero")
     };
+    let correction = remainder(higher_price)
+        .checked_add(remainder(lower_price))
+        .and_then(|dropped| dropped.checked_div(2))
+        .expect("can't fail as both remainders are in -1..=1");
+    let median = sum
+        .checked_add(Price::new(correction))
+        .expect("can't fail as we rounded towards zero twice while halving the prices");
     Some(median)
 }
 
